@@ -205,7 +205,9 @@ func (r *recReplayer) Put(m *sse.Message, topics []string) (*sse.Message, error)
 var e2ePayloads = []string{"x", "hello world", "a\nb", "a\r\nb\rc", "", "\n", "é日本", "data: y", "id: 99", ": not a comment", "  spaced  ",
 	"retry: 5", "event: z", "\x00nul", "a:b:c", strings.Repeat("long ", 40), "{\"k\":[1,2,3]}", "trailing\n", "\nleading"}
 
-func e2eMessage(rng *rand.Rand, autoIDs bool, seq int) *sse.Message {
+// big: the message is padded so that its event is about as long as the client's initial scanner buffer (4096 bytes):
+// the buffer then ends inside the event's closing line breaks, or a byte either side of them
+func e2eMessage(rng *rand.Rand, autoIDs bool, seq int, big bool) *sse.Message {
 	m := &sse.Message{}
 	if !autoIDs {
 		m.ID = sse.ID(pick(rng, "m", "id ", "é", "#") + strconv.Itoa(seq))
@@ -222,6 +224,15 @@ func e2eMessage(rng *rand.Rand, autoIDs bool, seq int) *sse.Message {
 	n := pick(rng, 0, 1, 1, 1, 2, 3)
 	for i := 0; i < n; i++ {
 		m.AppendData(pick(rng, e2ePayloads...))
+	}
+	if big {
+		cur := len(m.String())
+		if autoIDs {
+			cur += len("id: \n") + len(strconv.Itoa(seq+1))
+		}
+		if pad := 4097 + pick(rng, 0, 0, 0, -1, 1, 2) - cur - len("data: \n"); pad >= 0 {
+			m.AppendData(strings.Repeat("p", pad))
+		}
 	}
 	return m
 }
@@ -287,6 +298,16 @@ func runE2Einner(args []string) string {
 		return "bad-args"
 	}
 	rng := rand.New(rand.NewSource(seed))
+	// one scenario in five publishes events of about 4 KiB (the client's initial buffer size); its cut offsets past the
+	// response head are scaled to lie across several of them
+	bigMode := seed%5 == 0
+	if bigMode {
+		for i := range plan {
+			if (plan[i].kind == 'c' || plan[i].kind == 'r') && plan[i].n > e2eHeadLen+6 {
+				plan[i].n = e2eHeadLen + (plan[i].n-e2eHeadLen)*23
+			}
+		}
+	}
 
 	var inner sse.Replayer
 	var err error
@@ -378,7 +399,7 @@ func runE2Einner(args []string) string {
 		if n > 0 {
 			break
 		}
-		if err := server.Publish(e2eMessage(rng, autoIDs, 1000000+nwarm), pubTopics...); err != nil {
+		if err := server.Publish(e2eMessage(rng, autoIDs, 1000000+nwarm, false), pubTopics...); err != nil {
 			cleanup()
 			return "BAD publish warm-up: " + err.Error()
 		}
@@ -389,7 +410,7 @@ func runE2Einner(args []string) string {
 	msgs := make([]*sse.Message, nmsgs)
 	pauses := make([]time.Duration, nmsgs)
 	for i := range msgs {
-		msgs[i] = e2eMessage(rng, autoIDs, i)
+		msgs[i] = e2eMessage(rng, autoIDs, i, bigMode)
 		pauses[i] = time.Duration(rng.Intn(400)) * time.Microsecond
 	}
 	var wg sync.WaitGroup
